@@ -62,6 +62,7 @@ def main():
     ap.add_argument("--files", default="")
     ap.add_argument("--seed", type=int, default=1)
     ap.add_argument("--out", default="/tmp/mutants.json")
+    ap.add_argument("--reference", action="store_true", help="write sa/mutant_reference.json (the caught mutants, by key) from this sweep")
     a = ap.parse_args()
     import glob
     rels = []
@@ -109,6 +110,22 @@ def main():
     red_uncaught = [r for r in done if not r["fired"] and not r.get("tests_green")]
     print(f"mutants {len(out)}  evaluated {len(done)}  caught by a check {len(caught)}  uncaught+tests green {len(green_uncaught)}  "
           f"uncaught+tests red {len(red_uncaught)}")
+    if a.reference:
+        keys = {}
+        for r in caught:
+            k = (r["file"], r["func"], r["op"], r["what"])
+            keys.setdefault(k, r)
+        # a key that names two different edits of one function cannot be re-created unambiguously: leave those out
+        dup = {}
+        for r in done:
+            k = (r["file"], r["func"], r["op"], r["what"])
+            dup[k] = dup.get(k, 0) + 1
+        ref = [{"file": k[0], "func": k[1], "op": k[2], "what": k[3], "fired": r["fired"]} for k, r in sorted(keys.items()) if dup[k] == 1]
+        head = subprocess.run(["git", "-C", REPO, "rev-parse", "--short", "HEAD"], capture_output=True, text=True).stdout.strip()
+        json.dump({"repo_head": head, "sweep": {"mutants": len(out), "caught": len(caught), "survivors_tests_green": len(green_uncaught),
+                                                 "uncaught_tests_red": len(red_uncaught)}, "mutants": ref},
+                  open(os.path.join(V, "sa", "mutant_reference.json"), "w"), indent=0)
+        print(f"reference: {len(ref)} caught mutants with an unambiguous key")
     for r in green_uncaught:
         print(f"  SURVIVOR {r['file']}:{r['line']} {r['op']}: {r['what']}")
 
